@@ -140,4 +140,7 @@ class FixedWindowCandidates:
                 current_instances = self.add_new_tracks(
                     current_instances, add_to_queue=add_to_queue
                 )
+        else:
+            # No pair was matched (e.g. every score is NaN): all detections are unmatched.
+            current_instances = self.add_new_tracks(current_instances)
         return current_instances
